@@ -397,3 +397,8 @@ Proof.
   intros fuel l H. pose proof (no_fault fuel l (client_okb_sound fuel l _ H)) as Hn.
   destruct (run_script fixed fuel l) as [h|f k hf|k]; cbn; auto. exfalso. exact (Hn f k hf eq_refl).
 Qed.
+
+Theorem script_all_released_b : forall fuel l h,
+  client_okb fuel l (heap0 fixed) = true -> run_script fixed fuel l = VOk h ->
+  (forall a c, findw h a = Some c -> w_ref c < 1) -> heap_empty h = true.
+Proof. intros fuel l h H. apply script_all_released. apply client_okb_sound. exact H. Qed.
